@@ -33,7 +33,7 @@ def one(p):
                 shutil.copy(os.path.join(m, f), os.path.join(dst, f))
         notes = open(m + "/notes.md", errors="replace").read() if os.path.exists(m + "/notes.md") else ""
         meta = {"property": p, "kind": "refactor", "refactor_kind": KINDS.get(k, ""), "round": ROUND,
-                "origin": "fresh sub-agent given only the property text and a scratch worktree of /repo, asked for behaviour-preserving refactorings (second round: modest everyday edits, different from the first round's)",
+                "origin": "fresh sub-agent given only the property text and a scratch worktree of /repo, asked for behaviour-preserving refactorings (round %d: modest everyday edits, different from the earlier rounds')" % ROUND,
                 "what": notes.strip().split("\n")[0][:300], "expected_to_fire": [],
                 "confirmed_by_me": {"repo_suite_with_change": "go build ./... && go test -vet=off -count=1 ./... : all packages ok", "authors_old_vs_new_equivalence_test": eq, "first_run_fired": fl},
                 "known_false_alarms": fl}
